@@ -1,3 +1,4 @@
--- This module serves as the root of the `Pybes3Verif` library.
--- Import modules here that should be built as part of the library.
-import Pybes3Verif.Basic
+-- Root of the `Pybes3Verif` library: imports every module so that `lake build` checks everything.
+import Pybes3Verif.Gen.Prelude
+import Pybes3Verif.Gen.DigiId
+import Pybes3Verif.Props.C05
